@@ -230,14 +230,17 @@ def run_shard(spec):
 
 def run_failing(spec):
     res = Result()
-    variants = ["dup_explicit", "dup_explicit_python", "explicit_equals_next_auto", "dead_interpreter", "via_dup"]
+    variants = ["dup_explicit", "dup_explicit_python", "explicit_equals_next_auto", "dead_interpreter", "via_dup",
+                "chdir_is_file", "nice_not_a_number", "chdir_missing_parent"]
+    late = {"chdir_is_file", "nice_not_a_number", "chdir_missing_parent"}  # fail after the interpreter was bootstrapped
     out: list = []
     cases = []
     for rep in range(spec["reps"]):
         for v in variants:
             cases.append({"gateways": [{"spec": "popen", "id": "g0", "execmodel": "thread", "activity": "idle"}],
                           "action": "failing_makegateway", "variant": v, "has_via": False, "linger": 2.0})
-    ths = [threading.Thread(target=run_initiator, args=(c, out, "attempt_end", 60), daemon=True) for c in cases]
+    ths = [threading.Thread(target=run_initiator, args=(c, out, "post_terminate" if c["variant"] in late else "attempt_end", 60), daemon=True)
+           for c in cases]
     for t in ths:
         t.start()
     for t in ths:
@@ -258,7 +261,18 @@ def run_failing(spec):
         res.sample({"variant": v, "outcome": end["outcome"][:80], "pids_started_by_failing_call": len(during)})
         failed = not end["outcome"].startswith("returned")
         # r['local_alive'] was sampled (polled <= 1 s) right after the attempt ended, while the group still lived
+        # (for the variants that fail after bootstrap: right after the group was terminated - whoever owns the
+        # process by then, it must not survive the group)
         leaked = [x for x in r.get("local_alive", []) if x[0] in during]
+        if v in late:
+            if not failed:
+                res.violation(f"bad-configuration-accepted:{v}", end["outcome"])
+            if leaked:
+                res.violation(f"failed-makegateway-left-process:{v}", f"outcome={end['outcome'][:100]} alive after group.terminate(): {leaked}")
+            pt = next((e for e in ev if e.get("event") == "post_terminate"), None)
+            if pt and pt["len_group"] != 0:
+                res.violation("group-not-empty-after-terminate", f"{v}: {pt['len_group']}")
+            continue
         if v == "dead_interpreter":
             if leaked:
                 res.violation("failed-makegateway-left-process:dead_interpreter", f"{leaked}")
